@@ -298,6 +298,7 @@ func (st *SimStore) Revoke(id string, created int64) bool {
 	kr.Revoked = true
 	st.Rows[id][created] = refimpl.MakeKeyRecord(kr.Created, kr.KeyBytes(), kr.ParentKeyMeta, true)
 	st.AtInsert[id][created] = append([]byte(nil), st.Rows[id][created]...)
+	st.w.Faults.Fired["operator.revoke-key"]++
 	st.Log = append(st.Log, StoreEvent{By: "operator", Kind: "revoke", ID: id, Created: created, T: st.w.S.Elapsed(), Op: -1})
 	if st.w.Mem != nil {
 		if e := st.w.Mem.Envelopes[id][created]; e != nil {
